@@ -49,8 +49,17 @@ def check_cga(res, n, rng, reps):
     def bvec():
         return sum((float(Fraction(int(rng.integers(-16, 17)), 4)) * e for e in E), zero)
     one = 1 + zero
+    # the zero base vector is a base vector: translation by it is the identity (repaired defect 16)
+    res.case(('translation-zero', n), nontrivial=True)
+    with common.guard(res, 'translation', site, dict(site, a=[0.0] * n)):
+        T0 = c.translation(zero)
+        xz = bvec() + E[0]
+        if not (near(T0.mv, one, 1.0) and near(T0(c.up(xz)), c.up(xz), mag(c.up(xz))) and near(c.transversion(zero).mv, one, 1.0)):
+            res.violate('translation / transversion by the zero base vector is not the identity', dict(site, a=[0.0] * n), T0.mv.value.tolist(), 1, dict(site, op='translation-zero'))
     for _ in range(reps):
         x, a = bvec(), bvec()
+        while not x.value.any():
+            x = bvec()       # (as an operator argument the zero multivector carries no grade and is mapped to zero; the origin is exercised as up(0) below)
         X = c.up(x)
         inp = dict(site, x=x.value[1:n + 1].tolist(), a=a.value[1:n + 1].tolist())
         # translation
